@@ -73,8 +73,12 @@ def run(n, s0, s1, s2, nf0, nf1, nf2, a0, b0, a1, b1, a2, b2, cs, ss, f1_exists,
         if f1_exists:
             fields["f1"] = mk_field("f1", f1_type, f1_required, f1_fmt)
         msg = NS(fields=fields)
-        unary = NS(client_streaming=False, server_streaming=False, input_type=".pkg.Req")
-        stream = NS(client_streaming=cs, server_streaming=ss, input_type=".pkg.Req")
+        # real wrappers.Method objects (as in API.all_methods) over stand-in descriptors, so that every accessor of
+        # Method (client_streaming, server_streaming, grpc_stub_type, ...) is the real one
+        unary = wrappers.Method(method_pb=NS(name="A", client_streaming=False, server_streaming=False, input_type=".pkg.Req"),
+                                input=None, output=None)
+        stream = wrappers.Method(method_pb=NS(name="S", client_streaming=cs, server_streaming=ss, input_type=".pkg.Req"),
+                                 input=None, output=None)
         me = NS(all_methods={"pkg.Svc.A": unary, "pkg.Svc.B": unary, "pkg.Svc.S": stream}, messages={"pkg.Req": msg})
     try:
         VALIDATE(me, settings)
